@@ -209,6 +209,42 @@ def run(ck: Check):
     protocols.large_batch_rows(ck, train=False)
     protocols.dtype_variants(ck, train=False)
     protocols.empty_batch(ck, train=False)
+    # a model converted with .double() / .bfloat16(): eval must still run and give the Boolean circuit of the float32 model
+    # (the weights are exactly representable after widening; for bfloat16 the gates are re-read from the converted logits)
+    import copy as _copy
+    for kind in ("conv2d-raw", "conv3d-raw", "conv2d-walsh", "dense-raw"):
+        for dt in (torch.float64, torch.bfloat16):
+            torch.manual_seed(ck.seed + 21)
+            if kind == "dense-raw":
+                base = LogicDense(6, 8, device="cpu", weight_init="random")
+                x = (torch.rand(16, 6) > 0.5).float()
+            elif kind == "conv3d-raw":
+                from torchlogix.layers import LogicConv3d
+                base = LogicConv3d(in_dim=3, device="cpu", channels=1, num_kernels=2, tree_depth=1, receptive_field_size=2)
+                with torch.no_grad():
+                    for p_ in base.parameters():
+                        p_.copy_(torch.randn_like(p_))
+                x = (torch.rand(8, 1, 3, 3, 3) > 0.5).float()
+            else:
+                base = LogicConv2d(in_dim=(4, 4), device="cpu", channels=2, num_kernels=3, tree_depth=2, receptive_field_size=2,
+                                   weight_init="random", parametrization="walsh" if kind.endswith("walsh") else "raw")
+                x = (torch.rand(8, 2, 4, 4) > 0.5).float()
+            conv = _copy.deepcopy(base).to(dt)
+            ref = _copy.deepcopy(conv).float().eval()          # the converted logits, evaluated in float32
+            case = {"kind": "converted-model", "layer": kind, "dtype": str(dt)}
+            ck.case(case, nontrivial=True, kind="converted-model")
+            conv.eval()
+            try:
+                with torch.no_grad():
+                    got = conv(x.to(dt)).float()
+                    want = ref(x)
+            except Exception as e:
+                ck.disagree("eval mode of a layer converted to another floating dtype raises (training mode runs)", case, observed=repr(e)[:200],
+                            signature={"what": "converted-model", "kind": "error"})
+                continue
+            if not torch.equal(got, want):
+                ck.disagree("eval mode of a converted layer is not the Boolean circuit of its logits", case,
+                            signature={"what": "converted-model", "kind": "wrong"})
     return ck.finish()
 
 
